@@ -8,6 +8,7 @@ import (
 
 	"github.com/vektah/gqlparser/v2"
 	"github.com/vektah/gqlparser/v2/ast"
+	"github.com/vektah/gqlparser/v2/parser"
 	"github.com/vektah/gqlparser/v2/validator"
 
 	"verif/mc/explore"
@@ -164,9 +165,9 @@ func init() {
 // directive-sites: directives on fragment spreads (also a spread repeated in one operation) and
 // inline fragments, and a built-in directive the schema declares itself with other defaults.
 
-const c15SiteSDL = `directive @dir(n: Int, d: Int = 7) repeatable on FIELD | FRAGMENT_SPREAD | INLINE_FRAGMENT
-directive @defer(if: Boolean = false, label: String = "main") on FRAGMENT_SPREAD | INLINE_FRAGMENT
-directive @include(if: Boolean! = false, why: String = "w") on FIELD | FRAGMENT_SPREAD | INLINE_FRAGMENT
+const c15SiteSDL = `directive @dir(n: Int, d: Int = 7) repeatable on FIELD | FRAGMENT_SPREAD | INLINE_FRAGMENT | FRAGMENT_DEFINITION | QUERY
+directive @defer(if: Boolean = false, label: String = "main") on FRAGMENT_SPREAD | INLINE_FRAGMENT | FRAGMENT_DEFINITION | QUERY
+directive @include(if: Boolean! = false, why: String = "w") on FIELD | FRAGMENT_SPREAD | INLINE_FRAGMENT | FRAGMENT_DEFINITION | QUERY
 type Query { g: Int q: Query }
 `
 
@@ -227,7 +228,7 @@ func c15SiteRun(c *explore.Ctx, s *explore.SubStats, schema *ast.Schema, cs c15S
 	doc, errs := gqlparser.LoadQuery(schema, cs.Query)
 	if errs != nil {
 		s.Skipped++
-		s.Outcome("invalid-document")
+		s.Outcome("invalid-document: " + errs[0].Message)
 		return
 	}
 	coerced, cerr := validator.VariableValues(schema, doc.Operations[0], cs.Vars)
@@ -295,6 +296,9 @@ func init() {
 			{"third-spread-nested", `{ ...F q { ...F q { ...F § } } } fragment F on Query { g }`},
 			{"inline", `{ ... § { g } }`},
 			{"inline-in-fragment", `{ ...F } fragment F on Query { ... on Query § { g } }`},
+			{"fragment-definition", `{ ...F } fragment F on Query § { g }`},
+			{"fragment-definition-nested", `{ q { ...F } } fragment F on Query { q { ...G } } fragment G on Query § { g }`},
+			{"operation", `§ { g }`},
 		}
 		for _, site := range sites {
 			for _, d := range dirs {
@@ -325,9 +329,108 @@ func init() {
 						use += "(" + d.arg + ": $v)" // no value at all: the argument's default, if any
 					}
 					q := head + strings.Replace(site.tmpl, "§", use, 1)
+					if strings.HasPrefix(site.tmpl, "§") {
+						q = strings.TrimSpace(head) + " " + use + strings.TrimPrefix(site.tmpl, "§")
+					}
 					s.States++
 					c15SiteRun(c, s, schema, c15SiteCase{Query: q, Vars: vars, Want: []map[string]any{want}})
 				}
+			}
+		}
+	}
+}
+
+// schema-versions: one parsed document validated against one version of a schema and then
+// against another (a reload with other argument defaults, an argument added, a default removed):
+// argument resolution follows the schema last validated against.
+const c15V1 = `directive @page(size: Int = 10, lang: String = "en") on FIELD
+type Query { list(first: Int = 10, order: String = "ASC", lang: String = "en"): Int g: Int }
+`
+const c15V2 = `directive @page(size: Int = 25, after: String = "start", lang: String) on FIELD
+type Query { list(first: Int = 25, order: String = "DESC", after: String = "start", lang: String): Int g: Int }
+`
+
+func init() {
+	prev := registry["C15"].Run
+	registry["C15"].Run = func(c *explore.Ctx) {
+		prev(c)
+		s := c.Sub("schema-versions", "4 documents (arguments omitted, literal, variable, in a fragment) validated against schema version 1 then 2, and 2 then 1; field and directive argument maps after each validation", "ArgumentMap uses the argument definitions and defaults of the schema the document was last validated against", "every validation")
+		if s == nil || c.Shard != 0 {
+			return
+		}
+		v1, err1 := gqlparser.LoadSchema(&ast.Source{Name: "v1.graphql", Input: c15V1})
+		v2, err2 := gqlparser.LoadSchema(&ast.Source{Name: "v2.graphql", Input: c15V2})
+		if err1 != nil || err2 != nil {
+			panic(fmt.Sprint(err1, err2))
+		}
+		want := map[*ast.Schema][2]map[string]any{
+			v1: {{"first": 10, "order": "ASC", "lang": "en"}, {"size": 10, "lang": "en"}},
+			v2: {{"first": 25, "order": "DESC", "after": "start"}, {"size": 25, "after": "start"}},
+		}
+		docs := []string{
+			`{ list @page }`,
+			`{ ...F } fragment F on Query { list @page }`,
+			`query Q($o: String) { list(order: $o) @page(lang: $o) }`,
+			`{ a: list b: list @page g @page }`,
+		}
+		for _, q := range docs {
+			for _, order := range [][]*ast.Schema{{v1, v2}, {v2, v1}, {v1, v2, v1}} {
+				doc, perr := parser.ParseQuery(&ast.Source{Name: "q.graphql", Input: q})
+				if perr != nil {
+					panic(perr)
+				}
+				s.States++
+				for step, sch := range order {
+					s.Executions++
+					if errs := validator.Validate(sch, doc); len(errs) > 0 {
+						s.Skipped++
+						continue
+					}
+					s.Validated++
+					var fields []*ast.Field
+					var collect func(ss ast.SelectionSet)
+					collect = func(ss ast.SelectionSet) {
+						for _, x := range ss {
+							if f, ok := x.(*ast.Field); ok {
+								fields = append(fields, f)
+								collect(f.SelectionSet)
+							}
+						}
+					}
+					collect(doc.Operations[0].SelectionSet)
+					for _, fr := range doc.Fragments {
+						collect(fr.SelectionSet)
+					}
+					for _, f := range fields {
+						check := func(what string, got, w map[string]any, hasVar bool) {
+							exp := map[string]any{}
+							for k, v := range w {
+								exp[k] = v
+							}
+							s.Transitions++
+							_ = hasVar
+							if !reflect.DeepEqual(normNum(normAny(got)), normNum(normAny(exp))) {
+								c.Report(s, explore.Violation{Key: "args/value schema-versions " + what, Input: explore.J(map[string]any{"query": q, "step": step}), Rendered: fmt.Sprintf("%s   validated against version %s (validation %d of this document)", q, sch.Types["Query"].Position.Src.Name, step+1),
+									Detail: what + " of " + f.Alias + ": the argument map does not follow the schema validated against last", Expected: goRepr(exp), Observed: goRepr(got)})
+							}
+						}
+						if f.Name == "list" && len(f.Arguments) == 0 {
+							var got map[string]any
+							if r := guarded(0, 0, func() { got = f.ArgumentMap(map[string]any{}) }); !r.Panicked {
+								check("field", got, want[sch][0], false)
+							}
+						}
+						for _, d := range f.Directives {
+							if len(d.Arguments) == 0 {
+								var got map[string]any
+								if r := guarded(0, 0, func() { got = d.ArgumentMap(map[string]any{}) }); !r.Panicked {
+									check("directive", got, want[sch][1], false)
+								}
+							}
+						}
+					}
+				}
+				s.Nontrivial++
 			}
 		}
 	}
